@@ -216,6 +216,17 @@ def rule_truncate(ctx, rule_id="C15.truncate"):
         bad = [c for c in body_walk(fi.node) if isinstance(c, ast.Call) and call_simple_name(c) in ("round", "ceil", "rint")]
         bias = [b for b in body_walk(fi.node) if isinstance(b, ast.BinOp) and isinstance(b.op, ast.Add) and "microsecond" in norm(b)
                 and any(isinstance(x, ast.Constant) and isinstance(x.value, int) and x.value >= 500 for x in ast.walk(b))]
+        # decimal digits are handled in exact integer / text arithmetic: float(), true division or a float literal on the way
+        # turns '.0157' into 15699 microseconds (binary floating point cannot represent most decimal fractions)
+        inexact = [x for x in body_walk(fi.node) if (isinstance(x, ast.Call) and call_simple_name(x) == "float")
+                   or (isinstance(x, ast.BinOp) and isinstance(x.op, ast.Div))
+                   or (isinstance(x, ast.Constant) and isinstance(x.value, float))]
+        run.check(not inexact, R, key(fi.module.relpath, fi.qualname, "exact-decimal-arithmetic"),
+                  "the seconds fraction passes through binary floating point (float(), `/`, a float literal): for about 1% of the "
+                  "4-6 digit fractions the result is one microsecond short, so canonical text does not survive parse -> write and "
+                  "two ordered instants can be written alike", file=fi.module.relpath,
+                  line=inexact[0].lineno if inexact else fi.node.lineno, function=fi.qualname,
+                  expected="strptime('%f') / integer arithmetic (// and %) / string slicing only", found=[short(x, 60) for x in inexact][:4])
         run.check(not bad and not bias, R, key(fi.module.relpath, fi.qualname, "no-rounding"),
                   "sub-second digits are rounded instead of truncated (a later instant could be written as an earlier/later one)",
                   file=fi.module.relpath, line=(bad + bias)[0].lineno if (bad or bias) else fi.node.lineno, function=fi.qualname,
